@@ -28,6 +28,10 @@
 //     something keep their condition) and the result is the tuple of their final values. `continue`/`break`, nested
 //     loops and calls outside the translated set remain hard errors.
 //
+//   - "assign" mode: the right-hand side of one assignment (field "target" = its printed left-hand side) as a function.
+//   - unsigned 8/16-bit typing: `+ - * <<` whose static operand type is uint8/byte/uint16 (declared parameter, `var`,
+//     element of a []byte/[N]uint16 parameter, byte()/uintN() conversion, or spec "types") wrap with Go.uwrapN, as in Go.
+//     (int32/int64 arithmetic stays under the no-overflow reading of DESIGN 2.1.)
 // No loops (other than the above), no slices, no interfaces.
 //
 // Semantics: Go int (64-bit) -> Lean Int (no wrap-around; see DESIGN 2.1); `/` -> Int.tdiv,
@@ -55,6 +59,9 @@ type FuncSpec struct {
 	Mode   string   `json:"mode"`   // "" | "prefix" | "loop"
 	Loop   int      `json:"loop"`   // loop mode: index of the for/range statement (pre-order)
 	Params []string `json:"params"` // loop mode: extra scalar parameters (Int)
+	Types  map[string]string `json:"types"` // declared types of locals the translator cannot type itself ("byte", "uint16",
+	//                                  "[]byte", ...): only unsigned 8/16-bit widths matter (typed wrap-around)
+	Target string   `json:"target"` // assign mode: printed left-hand side of the assignment whose right-hand side is translated
 	Slice  []string `json:"slice"`  // loop mode: keep only the statements that assign these scalars (and the ifs /
 	//                                  branch statements around them); the result is the tuple of their final values
 	Pre    bool     `json:"pre"`    // loop mode: the loop is a top-level statement; the statements before it
@@ -116,6 +123,8 @@ type tr struct {
 	nResults int      // number of results of the Go function
 	resTypes []string // per result: "Int" | "Bool" | struct | "Error" (non-prefix mode)
 	initOnly map[string]bool // names introduced only by `if v := …;` init statements (dead after their if)
+	uw       map[string]int // identifiers of unsigned 8/16-bit type -> width (Go arithmetic on them wraps)
+	uwElem   map[string]int // arrays/slices whose elements are unsigned 8/16-bit -> width
 	loop     bool     // loop mode: element expressions are variables
 	elems    []string // element variables in order of first occurrence
 	stored   []string // element variables stored to, in order of first store
@@ -244,6 +253,97 @@ func (t *tr) callName(c *ast.CallExpr) string {
 	return ""
 }
 
+// uwOfType: 8/16 for byte/uint8/uint16, 0 otherwise; elem reports an array/slice of such elements.
+func uwOfType(e ast.Expr) (w int, elem bool) {
+	switch x := e.(type) {
+	case *ast.Ident:
+		switch x.Name {
+		case "byte", "uint8":
+			return 8, false
+		case "uint16":
+			return 16, false
+		}
+	case *ast.ArrayType:
+		w, _ := uwOfType(x.Elt)
+		return w, true
+	case *ast.StarExpr:
+		return uwOfType(x.X)
+	}
+	return 0, false
+}
+
+func (t *tr) declareType(name string, ty ast.Expr) {
+	if t.uw == nil {
+		t.uw, t.uwElem = map[string]int{}, map[string]int{}
+	}
+	if w, elem := uwOfType(ty); w > 0 {
+		if elem {
+			t.uwElem[name] = w
+		} else {
+			t.uw[name] = w
+		}
+	}
+}
+
+func (t *tr) declareTypeName(name, ty string) {
+	elem := strings.HasPrefix(ty, "[]")
+	t.declareType(name, func() ast.Expr {
+		id := &ast.Ident{Name: strings.TrimPrefix(ty, "[]")}
+		if elem {
+			return &ast.ArrayType{Elt: id}
+		}
+		return id
+	}())
+}
+
+// uwidth: static unsigned width (8/16) of an expression whose Go type is uint8/uint16, else 0.  Syntax-directed:
+// identifiers and elements of declared type, byte()/uint8()/uint16() conversions, and operators over them
+// (shift: the left operand's type; other operators: the operands' common type; untyped constants adapt).
+func (t *tr) uwidth(e ast.Expr) int {
+	switch x := e.(type) {
+	case *ast.Ident:
+		return t.uw[x.Name]
+	case *ast.ParenExpr:
+		return t.uwidth(x.X)
+	case *ast.IndexExpr:
+		root := x.X
+		for {
+			if ix, ok := root.(*ast.IndexExpr); ok {
+				root = ix.X
+				continue
+			}
+			break
+		}
+		if id, ok := root.(*ast.Ident); ok {
+			return t.uwElem[id.Name]
+		}
+	case *ast.UnaryExpr:
+		if x.Op == token.SUB || x.Op == token.ADD || x.Op == token.XOR {
+			return t.uwidth(x.X)
+		}
+	case *ast.CallExpr:
+		if id, ok := x.Fun.(*ast.Ident); ok && len(x.Args) == 1 {
+			switch id.Name {
+			case "byte", "uint8":
+				return 8
+			case "uint16":
+				return 16
+			}
+		}
+	case *ast.BinaryExpr:
+		switch x.Op {
+		case token.SHL, token.SHR:
+			return t.uwidth(x.X)
+		case token.ADD, token.SUB, token.MUL, token.QUO, token.REM, token.AND, token.OR, token.XOR, token.AND_NOT:
+			if w := t.uwidth(x.X); w > 0 {
+				return w
+			}
+			return t.uwidth(x.Y)
+		}
+	}
+	return 0
+}
+
 func (t *tr) expr(e ast.Expr) string {
 	switch x := e.(type) {
 	case *ast.BasicLit:
@@ -305,12 +405,18 @@ func (t *tr) expr(e ast.Expr) string {
 		l, r := t.expr(x.X), t.expr(x.Y)
 		switch x.Op {
 		case token.ADD, token.SUB, token.MUL:
+			if w := t.uwidth(x); w > 0 { // uint8/uint16 arithmetic wraps
+				return fmt.Sprintf("(Go.uwrap%d (%s %s %s))", w, l, x.Op.String(), r)
+			}
 			return "(" + l + " " + x.Op.String() + " " + r + ")"
 		case token.QUO:
 			return "(Int.tdiv " + l + " " + r + ")"
 		case token.REM:
 			return "(Int.tmod " + l + " " + r + ")"
 		case token.SHL:
+			if w := t.uwidth(x); w > 0 { // a shift keeps the left operand's type: uint8/uint16 results wrap
+				return fmt.Sprintf("(Go.uwrap%d (Go.shl %s %s))", w, l, r)
+			}
 			return "(Go.shl " + l + " " + r + ")"
 		case token.SHR:
 			return "(Go.shr " + l + " " + r + ")"
@@ -761,6 +867,14 @@ func (t *tr) block(stmts []ast.Stmt, fin string, ind string) (out string) {
 				if x.Tok == token.DEFINE {
 					if id, ok := l.(*ast.Ident); ok && id.Name != "_" {
 						t.env[id.Name] = t.typeOf(x.Rhs[i])
+						if w := t.uwidth(x.Rhs[i]); w > 0 {
+							if t.uw == nil {
+								t.uw, t.uwElem = map[string]int{}, map[string]int{}
+							}
+							t.uw[id.Name] = w
+						} else if t.uw != nil {
+							delete(t.uw, id.Name)
+						}
 					}
 				}
 			} else {
@@ -802,6 +916,7 @@ func (t *tr) block(stmts []ast.Stmt, fin string, ind string) (out string) {
 			for i, n := range vs.Names {
 				ty := "Int"
 				if vs.Type != nil {
+					t.declareType(n.Name, vs.Type)
 					ty = t.g.leanType(vs.Type)
 					if ty != "Int" && ty != "Bool" {
 						t.fail(s, "local of type %v", vs.Type)
@@ -1037,6 +1152,59 @@ func sliceStmts(stmts []ast.Stmt, keep map[string]bool) []ast.Stmt {
 	return out
 }
 
+// translateAssign ("assign" mode): the right-hand side of the assignment whose left-hand side prints as fs.Target,
+// as a function of the function's scalar parameters, the scalars named in "params" and one Int parameter per array /
+// slice element it reads (as in loop mode).
+func (g *gen) translateAssign(fs FuncSpec) string {
+	fd := g.funcs[fs.Go]
+	var rhs ast.Expr
+	ast.Inspect(fd.Body, func(nd ast.Node) bool {
+		as, ok := nd.(*ast.AssignStmt)
+		if !ok || len(as.Lhs) != 1 || len(as.Rhs) != 1 || as.Tok != token.ASSIGN && as.Tok != token.DEFINE {
+			return true
+		}
+		var sb strings.Builder
+		_ = printer.Fprint(&sb, g.fset, as.Lhs[0])
+		if sb.String() == fs.Target {
+			if rhs != nil {
+				panic(unsupported{fs.Go + ": more than one assignment to " + fs.Target})
+			}
+			rhs = as.Rhs[0]
+		}
+		return true
+	})
+	if rhs == nil {
+		panic(unsupported{fs.Go + ": no assignment to " + fs.Target})
+	}
+	t := &tr{g: g, env: map[string]string{}, extraSet: map[string]bool{}, fn: fs.Go + "#assign", loop: true}
+	params := []string{}
+	for n, ty := range fs.Types {
+		t.declareTypeName(n, ty)
+	}
+	for _, p := range fd.Type.Params.List {
+		ty := g.leanType(p.Type)
+		for _, nm := range p.Names {
+			t.declareType(nm.Name, p.Type)
+			if ty == "Int" || ty == "Bool" {
+				t.env[nm.Name] = ty
+				params = append(params, "("+nm.Name+" : "+ty+")")
+			}
+		}
+	}
+	for _, nm := range fs.Params {
+		if _, dup := t.env[nm]; !dup {
+			t.env[nm] = "Int"
+			params = append(params, "("+nm+" : Int)")
+		}
+	}
+	e := t.expr(rhs)
+	for _, el := range t.elems {
+		params = append(params, "("+el+" : Int)")
+	}
+	doc := fmt.Sprintf("/-- generated from the right-hand side of `%s = …` in %s (%s) -/\n", fs.Target, fs.Go, g.fset.Position(rhs.Pos()))
+	return doc + "def " + fs.Lean + " " + strings.Join(params, " ") + " : Int :=\n  " + e + "\n"
+}
+
 // translateLoop: see "loop" mode in the header comment.
 func (g *gen) translateLoop(fs FuncSpec) string {
 	fd := g.funcs[fs.Go]
@@ -1130,9 +1298,13 @@ func (g *gen) translateLoop(fs FuncSpec) string {
 				params = append(params, "("+t.recv+" : "+rt+")")
 			}
 		}
+		for n, ty := range fs.Types {
+			t.declareTypeName(n, ty)
+		}
 		for _, p := range fd.Type.Params.List {
 			ty := g.leanType(p.Type)
 			for _, nm := range p.Names {
+				t.declareType(nm.Name, p.Type)
 				if ty == "Int" || ty == "Bool" {
 					t.env[nm.Name] = ty
 					params = append(params, "("+nm.Name+" : "+ty+")")
@@ -1206,9 +1378,13 @@ func (g *gen) translate(fs FuncSpec) string {
 			params = append(params, "("+t.recv+" : "+t.recvType+")")
 		}
 	}
+	for n, ty := range fs.Types {
+		t.declareTypeName(n, ty)
+	}
 	for _, p := range fd.Type.Params.List {
 		ty := g.leanType(p.Type)
 		for _, n := range p.Names {
+			t.declareType(n.Name, p.Type)
 			switch ty {
 			case "Slice":
 				if !t.prefix {
@@ -1561,7 +1737,7 @@ func (g *gen) emit() string {
 		order = append(order, n)
 	}
 	for _, f := range g.unit.Funcs {
-		if f.Mode != "loop" {
+		if f.Mode != "loop" && f.Mode != "assign" {
 			visit(f.Go)
 		}
 	}
@@ -1570,6 +1746,12 @@ func (g *gen) emit() string {
 		fb.WriteString(g.translate(g.want[n]) + "\n")
 	}
 	for _, f := range g.unit.Funcs {
+		if f.Mode == "assign" {
+			if _, ok := g.funcs[f.Go]; !ok || f.Lean == "" || f.Target == "" {
+				panic(unsupported{fmt.Sprintf("%s: assign spec %s needs an existing function, a lean name and a target", g.unit.Out, f.Go)})
+			}
+			fb.WriteString(g.translateAssign(f) + "\n")
+		}
 		if f.Mode == "loop" {
 			if _, ok := g.funcs[f.Go]; !ok || f.Lean == "" {
 				panic(unsupported{fmt.Sprintf("%s: loop spec %s needs an existing function and a lean name", g.unit.Out, f.Go)})
@@ -1688,7 +1870,7 @@ func main() {
 			g := &gen{fset: token.NewFileSet(), unit: u, structs: map[string]*structInfo{}, funcs: map[string]*ast.FuncDecl{},
 				consts: map[string]ast.Expr{}, vars: map[string]ast.Expr{}, want: map[string]FuncSpec{}, usedConsts: map[string]bool{}}
 			for _, f := range u.Funcs {
-				if f.Mode != "loop" {
+				if f.Mode != "loop" && f.Mode != "assign" {
 					g.want[f.Go] = f
 				}
 			}
